@@ -137,7 +137,11 @@ class Flow:
             return ('call', 'deep-copy:' + name, tuple(args))        # copying a container is not the container itself
         if decl in TRANSPARENT_DECL or name in TRANSPARENT_NAME:
             return args[0] if args else ('unknown', 'no argument')
-        if name in ('std::option::Option::unwrap', 'std::option::Option::expect', 'std::option::Option::unwrap_unchecked') and args:
+        if name in ('std::option::Option::unwrap', 'std::option::Option::expect', 'std::option::Option::unwrap_unchecked',
+                    'std::option::Option::ok_or_else', 'std::option::Option::ok_or') and args:
+            # `opt.ok_or_else(|| err)?` hands on the payload exactly like `opt.unwrap()` does (Ok(..) and `?` are transparent); the None case leaves
+            if args[0][0] == 'call' and args[0][1] == 'std::option::Option::zip' and len(args[0][2]) == 2:
+                return ('tuple', (('some_payload', args[0][2][0]), ('some_payload', args[0][2][1])))          # a.zip(b) is Some((x, y)) iff both are Some
             return ('some_payload', args[0])
         t = self.thir(name)
         if t is not None and depth < self.max_depth and '{closure' not in name and len(t['params']) == len(args):
